@@ -84,6 +84,12 @@ TEMPLATES["graph"] = dict(
          ("expr", M(M("a", "other", V("b")), "inc")), ("expr", M(M("b", "other", V("a")), "tag", I(1))),
          ("expr", M(M(M("a", "other", V("b")), "other", V("c")), "inc")), ("expr", M("a", "via", V("b"))),
          lambda k: [asg(f"ch{k}", M(M("b", "other", V("a")), "inc")), ("print", ("is", V(f"ch{k}"), V("a"))), ("print", ("is", V(f"ch{k}"), V("b")))],
+         # op-assignment through a field path (every operator), guarded so that the value stays in 0..3
+         lambda k: [("if", ("bin", "<", F("a", "val"), I(3)), [("opassign", F("a", "val"), "+=", I(1))], None)],
+         lambda k: [("if", ("bin", ">", F("c", "val"), I(0)), [("opassign", F("c", "val"), "-=", I(1))], None)],
+         lambda k: [("if", ("bin", "<", F("b", "val"), I(2)), [("opassign", F("b", "val"), "*=", I(2))], None)],
+         ("opassign", F("a", "val"), "/=", I(2)), ("opassign", F("b", "val"), "%=", I(2)),
+         ("opassign", F(F("a", "leaf"), "n"), "%=", I(2)),
          ("setfield", V("a"), "tags", F("b", "tags")), ("expr", M("b", "adopt", V("a"))), ("expr", M("a", "reset")), ("expr", M("c", "copytags")),
          ("print", F("a", "val")), ("print", F("c", "tags")), ("setfield", V("a"), "val", I(2)), ("setfield", V("c"), "val", I(0)),
          ("expr", M(F("a", "leaf"), "bump")), ("print", F(F("b", "leaf"), "n")), ("setfield", V("b"), "leaf", F("a", "leaf")),
@@ -141,7 +147,7 @@ class C08(EHistCheck):
     thorough_cap_s = 40 * 60
     rule = ("breadth-first search over histories of constructions, aliasings, passing to / returning from functions, storing in / reading "
             "from a list, method calls (incl. a method returning Self, chained calls - also through methods declared -> Self that return another object -, a method calling another method), field reads and "
-            "writes (scalar, list, optional-class and class fields; a list field is shared with another object's, replaced by a fresh empty list and by a clone of itself) and `is` tests on two class graphs (Node/Leaf with a self-referential "
+            "writes (scalar, list, optional-class and class fields; a list field is shared with another object's, replaced by a fresh empty list and by a clone of itself; every op-assignment operator through a field path) and `is` tests on two class graphs (Node/Leaf with a self-referential "
             "optional link and a shared sub-object; Pair/Leaf with object-valued constructor parameters, swapping and fresh sub-objects); "
             "model = reference interpreter with records of cells; states de-duplicated on the values of observer expressions that expose "
             "every field, every identity relation between the named references and the link structure; every transition replayed on the real CLI.")
